@@ -27,18 +27,21 @@ type scriptCard struct {
 	script func(k int, plain chip.CAPDU) ([]byte, uint16)
 	// adversary replaces the genuine response of exchange k (nil = deliver genuine)
 	adversary func(k int, genuine []byte) []byte
-	n         int
-	outers    []chip.CAPDU
-	rawLens   []int
-	outerErrs []string
-	plains    []*chip.CAPDU
-	smErrs    []string
-	rejected  []bool
-	respData  [][]byte
-	respSW    []uint16
-	genuine   [][]byte
-	delivered [][]byte
-	log       term.EventLog
+	// intercept: the adversary answers exchange k itself; the card never sees the command
+	intercept   func(k int) bool
+	intercepted []bool
+	n           int
+	outers      []chip.CAPDU
+	rawLens     []int
+	outerErrs   []string
+	plains      []*chip.CAPDU
+	smErrs      []string
+	rejected    []bool
+	respData    [][]byte
+	respSW      []uint16
+	genuine     [][]byte
+	delivered   [][]byte
+	log         term.EventLog
 }
 
 func (c *scriptCard) Transceive(cla, ins, p1, p2 int, data []byte, le int, raw []byte) []byte {
@@ -53,7 +56,11 @@ func (c *scriptCard) Transceive(cla, ins, p1, p2 int, data []byte, le int, raw [
 	var rsw uint16
 	errS, smErr := "", ""
 	rej := false
+	icpt := c.intercept != nil && c.intercept(k)
+	c.intercepted = append(c.intercepted, icpt)
 	switch {
+	case icpt:
+		resp = nil
 	case err != nil:
 		errS = err.Error()
 		rej = true
@@ -148,7 +155,7 @@ func genSSCMode(rng *core.Rng) sscMode {
 
 var lenBand = []int{0, 1, 2, 6, 7, 8, 9, 14, 15, 16, 17, 23, 24, 31, 32, 33, 100, 223, 231, 239, 240, 247, 248, 253, 254, 255, 256, 257, 300, 1000}
 
-var swSet = []uint16{0x9000, 0x9000, 0x9000, 0x6282, 0x6300, 0x6700, 0x6982, 0x6A82, 0x6A86, 0x6B00, 0x6D00, 0x6F00, 0x6100, 0x63C2, 0x0000, 0xFFFF}
+var swSet = []uint16{0x9000, 0x9000, 0x9000, 0x6282, 0x6283, 0x6300, 0x6700, 0x6982, 0x6985, 0x6986, 0x6987, 0x6988, 0x6A80, 0x6A82, 0x6A86, 0x6A88, 0x6B00, 0x6D00, 0x6E00, 0x6F00, 0x6100, 0x63C2, 0x0000, 0xFFFF}
 
 // ------------------------------------------------------------------ C03: responses
 
@@ -175,7 +182,7 @@ func (SMRespEngine) Decode(raw json.RawMessage) (any, error) {
 	return c, err
 }
 
-var respAttacks = []string{"status-both", "splice-do87", "mac-tail", "bitflip", "bytesub", "truncate", "do_drop", "do_dup", "do_reorder", "do_nonminimal_len", "sw_mismatch",
+var respAttacks = []string{"mac-short", "forged-short-mac", "naked-replay", "status-both", "splice-do87", "mac-tail", "bitflip", "bytesub", "truncate", "do_drop", "do_dup", "do_reorder", "do_nonminimal_len", "sw_mismatch",
 	"replay", "future", "cross_session", "plaintext", "bare_status", "random", "append", "wrong_ssc_rewrap", "strip_mac", "empty"}
 
 func (SMRespEngine) Gen(prop, tier string, seed uint64, yield func(c any) bool) {
@@ -270,7 +277,16 @@ func (SMRespEngine) Run(prop string, ci any) *core.Outcome {
 		data []byte
 		sw   uint16
 	}
-	script := make([]want, c.Hist+1)
+	// naked-replay is a multi-step attack: 1-3 bare status words in a row, then a replay of the last genuine response
+	naked := 0
+	if c.Attack == "naked-replay" {
+		naked = 1 + c.A%3
+		if c.Hist == 0 {
+			c.Hist = 1
+		}
+	}
+	last := c.Hist + naked // index of the exchange whose delivery is judged
+	script := make([]want, last+1)
 	for i := range script {
 		script[i] = want{rng.Bytes(core.Pick(rng, lenBand)), core.Pick(rng, swSet)}
 	}
@@ -279,7 +295,21 @@ func (SMRespEngine) Run(prop string, ci any) *core.Outcome {
 	card.script = func(k int, p chip.CAPDU) ([]byte, uint16) { return script[k].data, script[k].sw }
 	attackRng := core.NewRng(core.SubSeed(c.Seed, "attack"))
 	fired := false
+	if naked > 0 {
+		card.intercept = func(k int) bool { return k >= c.Hist }
+	}
 	card.adversary = func(k int, genuine []byte) []byte {
+		if naked > 0 {
+			switch {
+			case k >= c.Hist && k < last:
+				sw := swSet[(c.B+k)%len(swSet)]
+				return []byte{byte(sw >> 8), byte(sw)}
+			case k == last:
+				fired = true
+				return bytes.Clone(card.genuine[c.Hist-1])
+			}
+			return genuine
+		}
 		if k != c.Hist {
 			return genuine
 		}
@@ -413,6 +443,38 @@ func (SMRespEngine) Run(prop string, ci any) *core.Outcome {
 			if bytes.Equal(forged, g) {
 				return genuine
 			}
+		case "mac-short":
+			// genuine content, MAC object cut to 0..7 bytes
+			ts, err := chip.ParseTLVs(g[:len(g)-2])
+			if err != nil {
+				return genuine
+			}
+			for _, t := range ts {
+				if t.Tag == 0x8E {
+					forged = append(forged, chip.EncTLV(0x8E, t.Val[:c.A%8])...)
+				} else {
+					forged = append(forged, t.Raw...)
+				}
+			}
+			forged = append(forged, g[len(g)-2:]...)
+		case "forged-short-mac":
+			// attacker-chosen status (and optionally a data object from an earlier response) with an empty / short MAC object
+			ns := swSet[c.A%len(swSet)]
+			if ns == script[k].sw {
+				ns ^= 0x0300
+			}
+			if c.B%2 == 0 && k > 0 {
+				if ts, err := chip.ParseTLVs(card.genuine[k-1][:len(card.genuine[k-1])-2]); err == nil {
+					for _, t := range ts {
+						if t.Tag == 0x87 {
+							forged = append(forged, t.Raw...)
+						}
+					}
+				}
+			}
+			forged = append(forged, chip.EncTLV(0x99, []byte{byte(ns >> 8), byte(ns)})...)
+			forged = append(forged, chip.EncTLV(0x8E, attackRng.Bytes(c.B%4))...)
+			forged = append(forged, byte(ns>>8), byte(ns))
 		case "mac-tail":
 			// only the last bytes of the MAC object altered
 			if len(g) < 6 {
@@ -430,7 +492,7 @@ func (SMRespEngine) Run(prop string, ci any) *core.Outcome {
 	nfc.SetSecureMessaging(sm)
 	doOne := func(k int) (*iso7816.RApdu, error, any) {
 		ins := byte(0xB0)
-		if c.OddINS && k == c.Hist {
+		if c.OddINS && k == last {
 			ins = 0xB1
 		}
 		cmd := iso7816.NewCApdu(0x00, ins, byte(k>>8), byte(k), rng.Bytes(core.Pick(rng, []int{0, 0, 4, 8, 17})), core.Pick(rng, []int{0, 1, 256}))
@@ -454,13 +516,13 @@ func (SMRespEngine) Run(prop string, ci any) *core.Outcome {
 		}()
 		return r, e, pan
 	}
-	for k := 0; k <= c.Hist; k++ {
+	for k := 0; k <= last; k++ {
 		var m0, m1 runtime.MemStats
-		if k == c.Hist {
+		if k == last {
 			runtime.ReadMemStats(&m0)
 		}
 		r, e, pan := doOne(k)
-		if k == c.Hist {
+		if k == last {
 			runtime.ReadMemStats(&m1)
 			if d := m1.TotalAlloc - m0.TotalAlloc; d > allocBudget(len(card.delivered[len(card.delivered)-1])) {
 				out.Violate("C12", "alloc-out-of-proportion", "sm-response/tlv.Decode", "decoding a %d-byte response allocated %d bytes (response %x)", len(card.delivered[len(card.delivered)-1]), d, card.delivered[len(card.delivered)-1])
@@ -472,13 +534,21 @@ func (SMRespEngine) Run(prop string, ci any) *core.Outcome {
 			out.Violate("C12", "panic-sm-decode", "sm.Decode", "panic: %v", pan)
 			break
 		}
-		if card.plains[k] == nil {
+		if card.plains[k] == nil && !card.intercepted[k] {
 			out.Violate("C10", "command-rejected-by-chip", c.Suite, "exchange %d: chip could not authenticate the command: %s %s", k, card.outerErrs[k], card.smErrs[k])
 			break
 		}
 		if k < c.Hist {
 			if e != nil || r == nil || !bytes.Equal(r.Data, script[k].data) || r.Status != script[k].sw {
 				out.Violate("C10", "genuine-response-rejected", c.Suite, "history exchange %d genuine response not delivered intact: err=%v", k, e)
+				break
+			}
+			continue
+		}
+		if k < last {
+			// bare status words inside a session must be refused
+			if e == nil && r != nil {
+				out.Violate("C03", "accepted-forged", sig, "bare status word accepted inside a session at exchange %d as data=%x sw=%04x", k, r.Data, r.Status)
 				break
 			}
 			continue
